@@ -200,7 +200,7 @@ func c07Corpus() ([]string, []string) {
 	return names, srcs
 }
 
-var c07MutTokens = []string{"${{", "}}", "${{ x. }}", "'", "\"", "\\n", "\\n\\n", ": ", "- ", "#", "[", "]", "{", "}", ",", "|", ">", "&a ", "*a", "!!str ", "\t", "  ", "\n", "\r\n", "\r", "\u0085", " ", "?", "~", "null", "${{ github.", "${{ \\n\\n x. }}", "%", "@", "`", "é", "日本", "\x00", "\\", "\\x0a"}
+var c07MutTokens = []string{"${{", "}}", "${{ x. }}", "'", "\"", "\\n", "\\n\\n", ": ", "- ", "#", "[", "]", "{", "}", ",", "|", ">", "&a ", "*a", "!!str ", "\t", "  ", "\n", "\r\n", "\r", "\u0085", " ", "?", "~", "null", "${{ github.", "${{ \\n\\n x. }}", "!!float nan", "!/a", "true }} x", "%", "@", "`", "é", "日本", "\x00", "\\", "\\x0a"}
 
 func c07Mutate(r *Rand, src string) (string, string) {
 	if src == "" {
@@ -388,7 +388,7 @@ func c07SiteNames(b *c07Built) string {
 
 func c07GenCase(c *Case, group string, cat *c07Catalogue, nShifts int) {
 	seed := c.R.U64()
-	base := c07Build(group, seed, c07Shift{}, cat, 0)
+	base := c07Build(group, seed, c07Shift{}, cat, 0, 0)
 	if !base.ok {
 		c.Count("gen_not_built", 1)
 		c.Logf("not built: %s", base.why)
@@ -475,6 +475,23 @@ func c07GenCase(c *Case, group string, cat *c07Catalogue, nShifts int) {
 		c.Sample(map[string]interface{}{"group": group, "site": siteName, "kind": base.kind, "style": base.styleName(), "scalar": c07ScalarText(base.target), "expected_at": obs0[0].want, "diagnostics": diagStrings(ds0)})
 	}
 
+	// (d) style / holder invariance: the same construct written in the other quoting styles and in
+	// the other holder style (block <-> flow)
+	for _, st := range []byte{c07Plain, c07Single, c07Double} {
+		if st != base.style {
+			fm := byte('b')
+			if base.inFlow {
+				fm = 'f'
+			}
+			c07Variant(c, base, ds0, obs0, group, seed, cat, st, fm, "style")
+		}
+	}
+	if base.inFlow {
+		c07Variant(c, base, ds0, obs0, group, seed, cat, base.style, 'b', "holder")
+	} else if base.flowAllowed {
+		c07Variant(c, base, ds0, obs0, group, seed, cat, base.style, 'f', "holder")
+	}
+
 	// (c) shifts
 	kinds := base.shifts
 	for s := 0; s < nShifts; s++ {
@@ -493,7 +510,11 @@ func c07GenCase(c *Case, group string, cat *c07Catalogue, nShifts int) {
 		case "placeholder":
 			sh.k = sr.Range(6, 40)
 		}
-		sb := c07Build(group, seed, sh, cat, base.style)
+		fm := byte('b')
+		if base.inFlow {
+			fm = 'f'
+		}
+		sb := c07Build(group, seed, sh, cat, base.style, fm)
 		if !sb.ok {
 			c.Count("shift_not_applicable", 1)
 			continue
@@ -582,6 +603,106 @@ func c07GenCase(c *Case, group string, cat *c07Catalogue, nShifts int) {
 			c.Violation(sig,
 				fmt.Sprintf("inserting %d %s before a %s construct (%s, %s scalar, site %s) did not move its diagnostics by exactly %d", sh.k, map[bool]string{true: "lines above", false: "columns"}[sh.kind == "lines"], base.kind, sh.kind, base.styleName(), siteName, sh.k),
 				map[string]interface{}{"base": c07Detail(base, ds0, nil), "shifted": c07Detail(sb, ds1, nil), "shift": map[string]interface{}{"kind": sh.kind, "k": sh.k}, "expected_after_shift": ws})
+		}
+	}
+}
+
+// c07Variant renders the same case in another quoting style or holder style and requires, for every
+// diagnostic of the construct, the same offset from the construct's recorded position as in the
+// base rendering (no convention needed); expectations with an absolute position get the absolute
+// oracle again.
+func c07Variant(c *Case, base *c07Built, ds0 []Diag, obs0 []c07Obs, group string, seed uint64, cat *c07Catalogue, style, flowMode byte, label string) {
+	vb := c07Build(group, seed, c07Shift{}, cat, style, flowMode)
+	if !vb.ok {
+		c.Count("variant_not_applicable_"+label, 1)
+		return
+	}
+	if label == "holder" && vb.inFlow == base.inFlow {
+		c.Count("variant_not_applicable_"+label, 1)
+		return
+	}
+	if label == "style" && vb.inFlow != base.inFlow {
+		c.Count("variant_not_applicable_"+label, 1)
+		return
+	}
+	if len(vb.expects) != len(base.expects) || vb.target.val != base.target.val || !c07YAMLHasScalarAt(vb.src, vb.target.pos, vb.target.val) {
+		c.Count("gen_variant_inconsistent", 1)
+		c.Logf("variant %s: generator inconsistent\n%s", label, vb.src)
+		if os.Getenv("C07_DEBUG") != "" {
+			fmt.Printf("VARIANT-INCONSISTENT %s %q vs %q\n%s\n", label, base.target.val, vb.target.val, vb.src)
+		}
+		return
+	}
+	ds1, err := lintSrc(vb.src)
+	c.Eval(1)
+	if err != nil {
+		c.Violation("C07:fatal-error", "linting a generated workflow returned a fatal error: "+err.Error(), map[string]interface{}{"src": vb.src})
+		return
+	}
+	c.Logf("---- %s variant (style %s, flow %v)\n%s", label, vb.styleName(), vb.inFlow, vb.src)
+	c.Logf("diagnostics: %s", strings.Join(diagStrings(ds1), "\n             "))
+	c07Bounds(c, "generated:"+group, vb.src, ds1, func() map[string]interface{} { return c07Detail(vb, ds1, nil) })
+	obs1, unmatched, missing := c07Match(vb, ds1)
+	if len(unmatched) > 0 || len(missing) > 0 {
+		c.Count("variant_skipped_other_diagnostics", 1)
+		c.SetAdd("variant_skipped_at", c07SiteNames(base)+"/"+base.kind+"/"+label)
+		if os.Getenv("C07_DEBUG") != "" {
+			fmt.Printf("VARIANT-SKIP %s %s %s: extra %v missing %v\n%s\n", label, c07SiteNames(base), base.kind, diagStrings(unmatched), missing, vb.src)
+		}
+		return
+	}
+	c.Count("variants_compared_"+label, 1)
+	c.SetAdd("variant_kind", label+"|"+base.kind)
+	c.SetAdd("variant_pairs", label+"|"+base.styleName()+">"+vb.styleName()+fmt.Sprintf("|flow=%v>%v", base.inFlow, vb.inFlow))
+	siteName := c07SiteNames(base)
+	for i := range obs1 {
+		o0, o1 := obs0[i], obs1[i]
+		if o1.exp.abs {
+			for _, d := range o1.got {
+				c.Count("absolute_positions_checked", 1)
+				if d.Line != o1.want.Line || d.Col != o1.want.Col {
+					sig := fmt.Sprintf("C07:abs:%s:%s:%s:dl=%+d,dc=%+d", vb.group, vb.site, vb.styleClass(), d.Line-o1.want.Line, d.Col-o1.want.Col)
+					c.Violation(sig,
+						fmt.Sprintf("%s diagnostic at a %s %s (%s scalar, flow holder %v, site %s) reported at %d:%d but the offending token/key/value is at %d:%d: %s", vb.kind, vb.mode, vb.group, vb.styleName(), vb.inFlow, siteName, d.Line, d.Col, o1.want.Line, o1.want.Col, d.Msg),
+						c07Detail(vb, ds1, map[string]interface{}{"expected": o1.want, "observed": Pos{d.Line, d.Col}, "message": d.Msg}))
+				}
+			}
+			continue
+		}
+		// no convention: offsets from the recorded position must agree between the renderings
+		off := func(o c07Obs) []string {
+			var out []string
+			for _, d := range o.got {
+				out = append(out, fmt.Sprintf("%+d,%+d", d.Line-o.want.Line, d.Col-o.want.Col))
+			}
+			sort.Strings(out)
+			return out
+		}
+		a, b := off(o0), off(o1)
+		if len(a) == 0 && len(b) == 0 {
+			continue
+		}
+		c.Count("offset_invariance_checked", 1)
+		c.SetAdd("offset_invariance_classes", label+"|"+base.kind+"|"+base.mode)
+		if strings.Join(a, " ") != strings.Join(b, " ") {
+			from, to := base.styleClass(), vb.styleClass()
+			if label == "holder" {
+				from, to = map[bool]string{true: "flow", false: "block"}[base.inFlow], map[bool]string{true: "flow", false: "block"}[vb.inFlow]
+			}
+			sig := fmt.Sprintf("C07:invariance:%s:%s:%s:%s:%s-vs-%s", label, base.group, base.site, base.kind, from, to)
+			if label == "style" && from != to && len(a) == 1 && len(b) == 1 {
+				// plain against quoted: the plain rendering is the reference, the witness class is
+				// the one of the absolute oracle ("in a quoted scalar the report is off by ...")
+				pl, qu := o0.got[0], o1.got[0]
+				plw, quw := o0.want, o1.want
+				if from == "quoted" {
+					pl, qu, plw, quw = qu, pl, quw, plw
+				}
+				sig = fmt.Sprintf("C07:abs:%s:%s:quoted:dl=%+d,dc=%+d", base.group, base.site, (qu.Line-quw.Line)-(pl.Line-plw.Line), (qu.Col-quw.Col)-(pl.Col-plw.Col))
+			}
+			c.Violation(sig,
+				fmt.Sprintf("%s diagnostic (site %s): offset of the report from the construct is %v in a %s scalar (flow %v) but %v in a %s scalar (flow %v): %s", base.kind, siteName, a, base.styleName(), base.inFlow, b, vb.styleName(), vb.inFlow, o1.exp.msg),
+				map[string]interface{}{"base": c07Detail(base, ds0, nil), "variant": c07Detail(vb, ds1, nil), "offsets_base": a, "offsets_variant": b})
 		}
 	}
 }
@@ -725,10 +846,11 @@ func c07ExplicitKeyCase(c *Case) {
 // ---------------------------------------------------------------------------
 
 func runC07(r *Run) {
-	r.Rule = "generated workflows (clean base + exactly one diagnosed construct written by a position-recording emitter): groups expr (lexer / parser / semantic / availability / untrusted-input / template errors at ~50 placeholder positions, embedded in text, whole-value, or bare if: condition), key (unexpected / duplicate / otherwise diagnosed keys), value (shell name, runner label, permission, event type, id, cron, action spec, typed literals ...), glob (offending character inside a filter pattern); layout drawn per case: indentation of every enclosing block, blanks after key:/-/brackets, block or flow holder, plain / single / double quoted, comment and blank lines, 0-3 earlier placeholders and 0-40 characters of text before the construct; each case is linted as is (bounds + absolute position) and re-emitted with 3 shifts (columns via indentation / padding / longer text / extra placeholder, or lines above). Plus the bounds oracle over every workflow under testdata/{ok,err,examples} and 13 kinds of byte / line mutations of them. Non-trivial = distinct (site, kind, mode, style, flow, position) of a generated case whose expected diagnostic was produced, or a distinct mutated corpus file that produced a non-YAML-level diagnostic."
+	r.Rule = "generated workflows (clean base + exactly one diagnosed construct written by a position-recording emitter): groups expr (lexer / parser / semantic / availability / untrusted-input / template errors at ~50 placeholder positions, embedded in text, whole-value, or bare if: condition), key (unexpected / duplicate / otherwise diagnosed keys), value (shell name, runner label, permission, event type, id, cron, action spec, typed literals ...), glob (offending character inside a filter pattern); layout drawn per case: indentation of every enclosing block, blanks after key:/-/brackets, block or flow holder, plain / single / double quoted, comment and blank lines, 0-3 earlier placeholders and 0-40 characters of text before the construct; each case is linted as is (bounds + absolute position), re-emitted in the other quoting styles and the other holder style (style / holder invariance + absolute position again) and re-emitted with 3 shifts (columns via indentation / padding / longer text / extra placeholder, or lines above). Plus the bounds oracle over every workflow under testdata/{ok,err,examples} and 13 kinds of byte / line mutations of them. Non-trivial = distinct (site, kind, mode, style, flow, position) of a generated case whose expected diagnostic was produced, or a distinct mutated corpus file that produced a non-YAML-level diagnostic."
 	r.Assume("the exactness oracle is applied only to constructs written on one line in a plain, single- or double-quoted scalar without escape sequences, in ASCII")
 	r.Assume("'offending token' for a lexer error is the unexpected character, for a parser error the unexpected token (the end marker }} for unexpected end of input), for a semantic error the first token of the offending sub-expression (errorAtExpr convention named in the property's anchors); for key diagnostics the key, for value diagnostics the first character of the scalar including its quote, for glob diagnostics the character named in the message")
-	r.Assume("diagnostics reported at the end of input of a bare if: condition, at an unterminated string literal and at the ${{ of a placeholder evaluating an object are only subject to the shift relation, not to the absolute oracle (the statement does not name their position)")
+	r.Assume("diagnostics reported at the end of input of a bare if: condition and at an unterminated string literal have no absolute convention in the statement: they are subject to the shift relation and to style / holder invariance (same offset from the construct in plain, single- and double-quoted scalars and in block / flow holders; a plain-vs-quoted difference is reported under the absolute oracle's signature with the plain rendering as reference)")
+	r.Assume("the diagnostic about an object / array / null evaluated in a template is about the placeholder and must be at its first character (the $ of ${{), the convention observed on plain scalars")
 	r.Assume("positions embedded in message texts (previously defined at line:L,col:C) are not compared")
 	r.Assume("a generated case that yields a diagnostic outside its expectation list, or lacks the expected one, is counted and skipped (floor: < 3% of the cases)")
 	r.Assume("lines are counted like the YAML reader does (LF, CRLF, CR, NEL, LS, PS)")
@@ -851,6 +973,25 @@ func runC07(r *Run) {
 	for _, pc := range []string{"emb|plain|flow=false", "emb|single|flow=true", "emb|double|flow=true", "whole|plain|flow=false", "bare|plain|flow=false", "bare|single|flow=false", "bare|double|flow=false", "key|plain|flow=true", "key|single|flow=false", "value|plain|flow=true", "value|double|flow=true"} {
 		if !r.SetHas("placement_classes", pc) {
 			r.Inconclusive("placement class " + pc + " never compared")
+		}
+	}
+	for _, vk := range []string{"style|lexer", "style|lexer-eof", "style|parser", "style|sema-var", "style|template", "style|untrusted", "style|avail", "style|glob", "style|unexpected-key", "style|duplicate-key", "style|shell-name", "style|cron",
+		"holder|lexer", "holder|lexer-eof", "holder|parser", "holder|sema-prop", "holder|template", "holder|glob", "holder|unexpected-key", "holder|runner-label", "holder|permission-value"} {
+		if !r.SetHas("variant_kind", vk) {
+			r.Inconclusive("style / holder invariance never compared for " + vk)
+		}
+	}
+	for _, ic := range []string{"style|lexer-eof|emb", "style|lexer-eof|bare", "style|parser|bare", "holder|lexer-eof|emb"} {
+		if !r.SetHas("offset_invariance_classes", ic) {
+			r.Inconclusive("offset invariance (diagnostics without an absolute convention) never compared for " + ic)
+		}
+	}
+	if r.Counter("variants_compared_style") < compared || r.Counter("variants_compared_holder")*4 < compared {
+		r.Inconclusive(fmt.Sprintf("too few style / holder variants compared (%d / %d for %d cases)", r.Counter("variants_compared_style"), r.Counter("variants_compared_holder"), compared))
+	}
+	for _, gs := range []string{"glob/ref/negated/ref name must not start with /", "glob/ref/ref name must not start with /", "glob/ref/negated/at least one character must follow", "glob/path/negated/at least one character must follow", "glob/ref/character '\\t' is invalid for bran"} {
+		if !r.SetHas("sites", gs) {
+			r.Inconclusive("glob position class never compared: " + gs)
 		}
 	}
 	for n := 0; n <= 3; n++ {
